@@ -32,7 +32,7 @@ def dag_level(ck, eng, pop):
     for label, shapes in pop.items():
         for shape in shapes:
             n = len(shape)
-            cap = (6 if (quick or not label.startswith('general')) else 3) if n <= 3 else (4 if quick else (1 if 'exhaustive' in label else 3))
+            cap = (6 if (quick or not label.startswith('general')) else 3) if n <= 3 else (4 if quick else 2)
             for p in dc.permutations_of(ck.rng, shape, cap):
                 cases.append((label, shape, p, dc.apply_perm(shape, p)))
     ck.note('dag_cases', len(cases))
@@ -121,12 +121,12 @@ def run_level(ck, eng, pop):
     pick = []
     for label, shapes in pop.items():
         if label.startswith('general'): continue
-        k = {'acyclic_exhaustive_n<=3': 25 if quick else 100}.get(label, 12 if quick else 60)
+        k = {'acyclic_exhaustive_n<=3': 25 if quick else 60}.get(label, 12 if quick else 40)
         pick += rng.sample(shapes, min(k, len(shapes)))
     jobs, meta = [], []
     for si, shape in enumerate(pick):
         n = len(shape)
-        cap = (12 if quick else 24) if n <= 4 else (12 if quick else 60)
+        cap = (12 if quick else 24) if n <= 4 else (12 if quick else 30)
         inputs = dc.inputs_of(shape)
         for p in dc.permutations_of(rng, shape, cap):
             ps = dc.apply_perm(shape, p)
